@@ -38,6 +38,7 @@ type verifCase struct {
 	Fail              []int    `json:"fail"`
 	LatUs             []int    `json:"latUs"`
 	OnCancel          []string `json:"onCancel"`
+	FailKind          []string `json:"failKind"`
 	Yield             bool     `json:"yield"`
 	CancelAfterEvents int      `json:"cancelAfterEvents"`
 }
@@ -162,6 +163,9 @@ func verifWalk(vc verifCase, res *verifResult, settle func()) {
 			return CacheMiss, nil
 		case "cancelled":
 			return CacheMiss, fmt.Errorf("interrupted: %w", context.Canceled)
+		}
+		if i < len(vc.FailKind) && vc.FailKind[i] == "deadline" {
+			return CacheMiss, fmt.Errorf("timeout after 1s: %w", context.DeadlineExceeded)
 		}
 		return CacheMiss, errors.New("target failed")
 	}
